@@ -37,9 +37,12 @@ class Trace:
     def __init__(self):
         self.reset()
 
-    def reset(self):
+    def reset(self, hp=False):
         self.kink = math.inf      # distance to the closest kink seen
         self.kinks = 0            # number of kink sites evaluated
+        # decimal mode: functions of plain constants (log(4), sinh(-1)) are
+        # computed with 60 digits as well, like the values they are combined with
+        self.hp = hp
 
     def see(self, dist):
         self.kinks += 1
@@ -382,7 +385,7 @@ def _scalar(name):
     hfn = HP_FUNCS[name]
 
     def f(x):
-        if isinstance(x, HP):
+        if isinstance(x, HP) or TRACE.hp:
             return hfn(x)
         return mfn(x)
     f.__name__ = name
@@ -572,7 +575,7 @@ def _copysign(u, w):
         TRACE.see(uv)
     if wdep:
         TRACE.see(wv)
-    if isinstance(uv, HP) or isinstance(wv, HP):
+    if isinstance(uv, HP) or isinstance(wv, HP) or TRACE.hp:
         val = _hp_copysign(uv, wv)
     else:
         val = math.copysign(uv, wv)
